@@ -3,7 +3,7 @@ import ast
 
 from ..model import AnalysisError, unparse, walk_local
 from ..paths import Evaluator, is_c, show, C, S, NONE, subterms
-from ..indexclass import ElemEval, Pos, classes, Undecided
+from ..indexclass import ElemEval, Pos, classes, Undecided, spec_bin
 from .common import mk_algebra
 from . import l1
 from .c10 import _decode_coo
@@ -72,6 +72,21 @@ def rule_fold(ctx):
                 red = (src[1], dict(src[4]).get('axis', src[3][0] if src[3] else None))
                 src = src[2]
             dec = _decode_coo(src)
+            if dec is None and src[0] == 'setitem' and src[1][0] == 'call' and src[1][1] in ('numpy.zeros',
+                                                                                            'numpy.zeros_like'):
+                # dense fill  full[rows, cols] (+)= data  - numpy does not accumulate repeated coordinates
+                idx = src[2]
+                inner = None
+                for t in subterms(idx):
+                    if t[0] == 'attr' and t[2] in ('row', 'col') and _decode_coo(t[1]) is not None:
+                        inner = t[1]
+                ctx.violation('C11.R2', fi, 'mode=%s: squash_time=%r reduction' % (mode, squash),
+                              'the full output is filled by fancy-index assignment / `+=`, which keeps one of several '
+                              'samples falling into the same (time, AM, carrier) cell instead of summing them')
+                if inner is not None:
+                    dec = _decode_coo(inner)
+                    src = inner
+                    red = ('toarray', None)
             if dec is None:
                 ctx.undecided('C11.R1', fi, c, 'no sparse accumulation found')
                 continue
@@ -136,9 +151,8 @@ def rule_fold(ctx):
                                 bq, aq = divmod(F, Cc)
                                 kept = (lohi[0][0] <= bq < R + lohi[0][1]) and (lohi[1][0] <= aq < Cc + lohi[1][1])
                                 cell = (bq - lohi[0][0], aq - lohi[1][0]) if kept else None
-                                ka = {'in': pa.k, 'at_first': 1}.get(pa.kind)
-                                kb = {'in': pb.k, 'at_first': 1}.get(pb.kind)
-                                want = (kb - 1, ka - 1) if (ka is not None and kb is not None) else None
+                                ka, kb = spec_bin(pa, E1), spec_bin(pb, E2)
+                                want = (kb, ka) if (ka is not None and kb is not None) else None
                                 if cell != want:
                                     problem = ('carrier class %s, AM class %s (E1=%d, E2=%d) -> %s, expected %s'
                                                % (pa, pb, E1, E2, 'cell [AM %d, carrier %d]' % cell if cell else 'dropped',
